@@ -173,6 +173,48 @@ func checkC02(c *Check) {
 			if !ok || len(ret.Results) != 1 {
 				continue
 			}
+			// single exit: the callback assigns its result to a variable
+			// and returns it once; judge each incoming edge of that value
+			res0 := ret.Results[0]
+			if _, isLoad := res0.(*ssa.UnOp); isLoad {
+				if u := fsUnique(res0, ret, nil); u != nil {
+					res0 = u // spilled because of defer
+				}
+			}
+			if phi, isPhi := res0.(*ssa.Phi); isPhi && (phi.Block() == b || phi.Block().Dominates(b)) {
+				tail := PCSet{}
+				if phi.Block() != b {
+					tail = pc.Region(cb, phi.Block(), b)
+				}
+				tailClean := true
+				for k := range tail {
+					if k.A != 0 || k.B != 0 {
+						tailClean = false
+					}
+				}
+				if tailClean {
+					for i, e := range phi.Edges {
+						pred := phi.Block().Preds[i]
+						nret++
+						set := pc.Region(cb, nil, pred)
+						kind := MaybeNil
+						if len(pred.Instrs) > 0 {
+							kind = nilKind(r, e, pred.Instrs[len(pred.Instrs)-1])
+						}
+						bad := ""
+						for k := range set {
+							if k.A > 1 || k.B > 1 {
+								bad = fmt.Sprintf("the delivered event is emitted %d and held %d times on some path", k.A, k.B)
+							}
+							if kind != NonNil && k.A+k.B != 1 {
+								bad = fmt.Sprintf("a path returning without error emits the delivered event %d time(s) and holds it %d time(s): the event is lost or duplicated", k.A, k.B)
+							}
+						}
+						c.Cond(bad == "", "exactly-one-of", fmt.Sprintf("%s: return (%s error) via %s", name, kind, p.InstrPos(pred.Instrs[len(pred.Instrs)-1])), p.InstrPos(ret), "count pairs (emit,hold) "+set.String(), bad)
+					}
+					continue
+				}
+			}
 			nret++
 			set := pc.Region(cb, nil, b)
 			kind := nilKind(r, ret.Results[0], ret)
@@ -343,7 +385,46 @@ func checkC02(c *Check) {
 			case "true":
 				c.Cond(!afterBind, "scan-stops-after-bind", name+": return true", rf.Pos(p), "continues only while unbound", "the scan continues after a match: the same login can be bound to a second session")
 			default:
-				c.Unk("scan-stops-only-after-bind", name+": computed return", rf.Pos(p), "the callback's result is computed; cannot decide when the scan stops")
+				// return !flag, the flag being a local variable set to true
+				// only where the matching session is taken: the scan stops
+				// exactly when it was
+				okFlag := false
+				if ret, isRet := rf.Ins.(*ssa.Return); isRet && len(ret.Results) == 1 {
+					if not, isNot := ret.Results[0].(*ssa.UnOp); isNot && not.Op == token.NOT {
+						if cell := cellOf(NewResolver(p), not.X); cell != nil {
+							okFlag = true
+							nTrue := 0
+							for _, st := range NewResolver(p).cellStores(cell) {
+								k, isC := st.Val.(*ssa.Const)
+								if !isC || k.Value == nil {
+									okFlag = false
+									continue
+								}
+								if k.Value.String() != "true" {
+									continue
+								}
+								nTrue++
+								dom := false
+								for _, an := range anchors {
+									if an.Parent() == st.Parent() && (dominatesInstr(an, st) || dominatesInstr(st, an)) {
+										dom = true
+									}
+								}
+								if !dom {
+									okFlag = false
+								}
+							}
+							if nTrue == 0 {
+								okFlag = false
+							}
+						}
+					}
+				}
+				if okFlag {
+					c.OK("scan-stops-only-after-bind", name+": return !flag", rf.Pos(p), "the callback returns the negation of a flag that is set exactly where the matching session is taken")
+				} else {
+					c.Unk("scan-stops-only-after-bind", name+": computed return", rf.Pos(p), "the callback's result is computed; cannot decide when the scan stops")
+				}
 			}
 		}
 		// flag idiom: found := true on the bind path, parking guarded by !found
